@@ -60,7 +60,7 @@ def get_good_c(s, mask, nb_initial_samples, use_c=False, **kwargs):
     d = distance_matrix(cs, use_c=use_c,  **kwargs)
     d = d.sum(axis=1)
     best_i = np.argmin(d)
-    return s[best_i]
+    return cs[best_i]
 
 
 def dba_loop(s, c=None, max_it=10, thr=0.001, mask=None,
